@@ -4,3 +4,8 @@ const (
 	c27NameComps = 2
 	c27LinkComps = 2
 )
+
+const (
+	c26Comps   = 2
+	c26LexLen  = 5
+)
